@@ -174,6 +174,62 @@ def idkey_good(names, phases):
             table[name, stmt.id] = work(stmt)
 
 
+def memokey_bad(lines, indentation):
+    cache = {}
+    out = []
+    for line in lines:
+        stmt = line.lstrip()
+        level = len(line) - len(stmt)
+        try:
+            pieces = cache[stmt]
+        except KeyError:
+            pieces = cache[stmt] = wrap(stmt, level, indentation)
+        out.extend(pieces)
+    return out
+
+
+def memokey2_bad(template, bound):
+    if template not in _template_cache:
+        free = variables(template) - set(bound)
+        _template_cache[template] = (parse(template), free)
+    return _template_cache[template]
+
+
+def memokey_good(lines, indentation, template, bound):
+    cache = {}
+    out = []
+    for line in lines:
+        stmt = line.lstrip()
+        level = len(line) - len(stmt)
+        width = len(stmt)
+        if (stmt, level) not in cache:
+            cache[stmt, level] = wrap(stmt, level, indentation, width)
+        out.extend(cache[stmt, level])
+    key = (template, frozenset(bound))
+    if key not in _template_cache:
+        _template_cache[key] = variables(template) - set(bound)
+    table = {}
+    for line in lines:
+        table[line] = out
+    return out, _template_cache[key]
+
+
+def mutdefault_bad(tree, assumptions={}):
+    return Simplifier(assumptions).visit(tree)
+
+
+def mutdefault2_bad(name, seen=[]):
+    seen.append(name)
+    return len(seen)
+
+
+def mutdefault_good(tree, assumptions=None, names=(), table={}):
+    known = {} if assumptions is None else dict(assumptions)
+    for n in names:
+        known[n] = table.get(n)
+    return Simplifier(known).visit(tree)
+
+
 def mutate_bad(statement):
     loops = statement.loops
     loops.reverse()
@@ -454,6 +510,222 @@ def _idkey(f):
     return out
 
 
+def _mutdefault(f):
+    """One mutable default object serves every call: it must not be changed or handed on."""
+    fn = f.node
+    if isinstance(fn, ast.Lambda):
+        return []
+    a = fn.args
+    pos = a.posonlyargs + a.args
+    pairs = list(zip(reversed(pos), reversed(a.defaults))) + [
+        (p_, d_) for p_, d_ in zip(a.kwonlyargs, a.kw_defaults) if d_ is not None]
+    out = []
+    for p_, d_ in pairs:
+        mutable = isinstance(d_, (ast.Dict, ast.List, ast.Set)) or (
+            isinstance(d_, ast.Call) and dotted(d_.func) in ("dict", "list", "set", "defaultdict",
+                                                             "collections.defaultdict"))
+        if not mutable:
+            continue
+        name = p_.arg
+        how = None
+        for x in ast.walk(fn):
+            if isinstance(x, ast.Call) and isinstance(x.func, ast.Attribute) \
+                    and dotted(x.func.value) == name and x.func.attr in (
+                        "append", "extend", "add", "update", "setdefault", "pop", "clear",
+                        "insert", "remove", "discard", "sort", "reverse", "popitem"):
+                how = f"changed in place ({norm(x, 40)})"
+            elif isinstance(x, (ast.Subscript,)) and dotted(x.value) == name \
+                    and isinstance(x.ctx, (ast.Store, ast.Del)):
+                how = f"changed in place ({norm(x, 40)})"
+            elif isinstance(x, ast.AugAssign) and dotted(x.target) == name:
+                how = f"changed in place ({norm(x, 40)})"
+            elif isinstance(x, ast.Call) and not (isinstance(x.func, ast.Name) and x.func.id in (
+                    "dict", "list", "set", "frozenset", "tuple", "sorted", "len", "iter",
+                    "enumerate", "zip", "bool", "any", "all", "sum", "min", "max", "repr", "str")) \
+                    and any(dotted(v) == name for v in list(x.args) + [k.value for k in x.keywords]):
+                how = f"handed on ({norm(x, 40)})"
+            elif isinstance(x, ast.Assign) and dotted(x.value) == name and any(
+                    isinstance(t, ast.Attribute) for t in x.targets):
+                how = f"kept ({norm(x, 40)})"
+            elif isinstance(x, ast.Return) and x.value is not None and dotted(x.value) == name:
+                how = "returned"
+            if how:
+                break
+        if how:
+            out.append((d_, f"the mutable default of '{name}' is shared by all calls and is {how}"))
+    return out
+
+
+# first come, first served by design: the identifier handed out for a key depends on the
+# prefix of the first request and on what the generator has handed out before (C13.memo,
+# C13.shared and C15 decide what that needs)
+_MEMOKEY_EXEMPT = {"KeyToUniqueNameMap.get_or_make_name_for_key"}
+
+
+def _memokey(f):
+    """A value remembered under a key must be determined by the key: what the value
+    is computed from, and the key does not fix, must not change while the table lives."""
+    fn = f.node
+    out = []
+    params = {a.arg for a in fn.args.posonlyargs + fn.args.args + fn.args.kwonlyargs} - {"self", "cls"}
+    # memo idiom: the table is consulted and filled under the same key expression
+    stores = []
+    for x in ast.walk(fn):
+        if isinstance(x, ast.Assign):
+            for t in x.targets:
+                if isinstance(t, ast.Subscript) and dotted(t.value):
+                    stores.append((x, t))
+    for st, tgt in stores:
+        table = dotted(tgt.value)
+        key = tgt.slice
+        ktxt = norm(key)
+        consulted = False
+        for x in ast.walk(fn):
+            if isinstance(x, ast.Subscript) and x is not tgt and dotted(x.value) == table \
+                    and isinstance(x.ctx, ast.Load) and norm(x.slice) == ktxt:
+                consulted = True
+            if isinstance(x, ast.Compare) and len(x.ops) == 1 and isinstance(x.ops[0], (ast.In, ast.NotIn)) \
+                    and dotted(x.comparators[0]) == table and norm(x.left) == ktxt:
+                consulted = True
+            if isinstance(x, ast.Call) and isinstance(x.func, ast.Attribute) and x.func.attr == "get" \
+                    and dotted(x.func.value) == table and x.args and norm(x.args[0]) == ktxt:
+                consulted = True
+        tests_first = any(
+            isinstance(x, ast.Compare) and len(x.ops) == 1 and isinstance(x.ops[0], (ast.In, ast.NotIn))
+            and dotted(x.comparators[0]) == table and norm(x.left) == ktxt for x in ast.walk(fn)) or any(
+            isinstance(t_, ast.Try) and any(
+                h.type is not None and "KeyError" in ast.unparse(h.type) for h in t_.handlers)
+            and any(isinstance(y, ast.Subscript) and dotted(y.value) == table and norm(y.slice) == ktxt
+                    for b in t_.body for y in ast.walk(b)) for t_ in ast.walk(fn)) or any(
+            isinstance(x, ast.Call) and isinstance(x.func, ast.Attribute) and x.func.attr == "get"
+            and dotted(x.func.value) == table for x in ast.walk(fn))
+        if not consulted or not tests_first:
+            continue
+        # not a memo: a registry refuses a key that is already there, a grouping table
+        # extends the entry it finds
+        refuses = any(
+            isinstance(x, ast.If) and isinstance(x.test, ast.Compare) and len(x.test.ops) == 1
+            and dotted(x.test.comparators[0]) == table and norm(x.test.left) == ktxt
+            and any(isinstance(y, ast.Raise) for b in (
+                x.body if isinstance(x.test.ops[0], ast.In) else x.orelse) for y in ast.walk(b))
+            for x in ast.walk(fn))
+        groups = any(
+            isinstance(x, ast.Call) and isinstance(x.func, ast.Attribute)
+            and x.func.attr in ("append", "add", "extend", "update")
+            and isinstance(x.func.value, ast.Subscript) and dotted(x.func.value.value) == table
+            for x in ast.walk(fn))
+        if refuses or groups or f.qualname in _MEMOKEY_EXEMPT:
+            continue
+        # how long the table lives
+        local_init = [x for x in ast.walk(fn) if isinstance(x, ast.Assign) and len(x.targets) == 1
+                      and dotted(x.targets[0]) == table and "." not in table]
+        loops = [lp for lp in ast.walk(fn) if isinstance(lp, (ast.For, ast.While))
+                 and any(y is st for b in lp.body for y in ast.walk(b))]
+        if local_init:
+            live_loops = [lp for lp in loops if not any(y is local_init[0] for y in ast.walk(lp))]
+            if not live_loops:
+                continue
+            varying = set()
+            for lp in live_loops:
+                for y in ast.walk(lp):
+                    if isinstance(y, ast.Name) and isinstance(y.ctx, ast.Store):
+                        varying.add(y.id)
+        else:
+            varying = set(params)
+            for y in ast.walk(fn):
+                if isinstance(y, ast.Name) and isinstance(y.ctx, ast.Store):
+                    varying.add(y.id)
+        assigns = {}
+        for y in ast.walk(fn):
+            if isinstance(y, ast.Assign):
+                for t in y.targets:
+                    for z in ast.walk(t):
+                        if isinstance(z, ast.Name) and isinstance(z.ctx, ast.Store):
+                            assigns.setdefault(z.id, []).append(y.value)
+            elif isinstance(y, (ast.AugAssign, ast.AnnAssign)) and isinstance(y.target, ast.Name) \
+                    and y.value is not None:
+                assigns.setdefault(y.target.id, []).append(y.value)
+            elif isinstance(y, (ast.For, ast.comprehension)):
+                for z in ast.walk(y.target):
+                    if isinstance(z, ast.Name):
+                        assigns.setdefault(z.id, []).append(None)    # one value per turn
+
+        fixed_attrs = set()
+
+        def loads(e):
+            skip = set()
+            for c in ast.walk(e):
+                if isinstance(c, ast.Call) and isinstance(c.func, ast.Name):
+                    skip.add(id(c.func))
+                if isinstance(c, (ast.ListComp, ast.SetComp, ast.GeneratorExp, ast.DictComp)):
+                    for g_ in c.generators:
+                        for z in ast.walk(g_.target):
+                            skip.add(("bound", getattr(z, "id", None)))
+            for a_ in ast.walk(e):
+                if isinstance(a_, ast.Attribute) and dotted(a_) in fixed_attrs:
+                    for z in ast.walk(a_):
+                        skip.add(id(z))
+            return {c.id for c in ast.walk(e) if isinstance(c, ast.Name) and isinstance(c.ctx, ast.Load)
+                    and id(c) not in skip and ("bound", c.id) not in skip}
+
+        # what the key determines: names it is built from by tuples and one-to-one wrappers
+        fixed = set()
+
+        def from_key(e, depth=0):
+            if isinstance(e, ast.Name):
+                src = [v for v in assigns.get(e.id, [None])
+                       if not (isinstance(v, ast.Constant) and v.value is None)]
+                if depth < 3 and len(src) == 1 and e.id not in params \
+                        and isinstance(src[0], (ast.Tuple, ast.Call, ast.Name, ast.Attribute)):
+                    from_key(src[0], depth + 1)
+                fixed.add(e.id)
+            elif isinstance(e, ast.Tuple):
+                for x_ in e.elts:
+                    from_key(x_, depth)
+            elif isinstance(e, ast.Call) and isinstance(e.func, ast.Name) and e.func.id in (
+                    "frozenset", "tuple", "sorted", "str", "repr", "set", "list") and len(e.args) == 1:
+                from_key(e.args[0], depth)
+            elif isinstance(e, ast.Attribute) and dotted(e):
+                fixed_attrs.add(dotted(e))
+        from_key(key)
+        changed = True
+        while changed:
+            changed = False
+            for n_, vals in assigns.items():
+                if n_ in fixed or n_ not in varying:
+                    continue
+                if all(v is not None and all(m in fixed or m not in varying for m in loads(v))
+                       for v in vals):
+                    fixed.add(n_)
+                    changed = True
+
+        def value_loads(e):
+            covered = {id(z) for a_ in ast.walk(e) if isinstance(a_, ast.Attribute)
+                       and dotted(a_) in fixed_attrs for z in ast.walk(a_)}
+            return {c.id for c in ast.walk(e) if isinstance(c, ast.Name) and id(c) not in covered} \
+                & loads(e)
+        loose = sorted(n_ for n_ in value_loads(st.value) if n_ in varying and n_ not in fixed
+                       and n_ != table)
+        # name what the loose values come from
+        roots, todo_ = set(), list(loose)
+        seen_ = set()
+        while todo_:
+            n_ = todo_.pop()
+            if n_ in seen_:
+                continue
+            seen_.add(n_)
+            srcs = [v for v in assigns.get(n_, []) if v is not None]
+            inner = {m for v in srcs for m in loads(v) if m in varying and m not in fixed}
+            if not srcs or n_ in params or not inner:
+                roots.add(n_)
+            todo_.extend(inner)
+        loose = sorted(roots) or loose
+        if loose:
+            out.append((st, f"'{table}[{ktxt}]' remembers a value computed from {loose}, which the "
+                            f"key does not determine and which change while the table lives"))
+    return out
+
+
 _SET_GETTERS = ("get_written_variables", "get_read_variables")
 
 
@@ -612,6 +884,8 @@ LINTS = [
     ("oneshot", _oneshot, True),
     ("salted", _salted, True),
     ("idkey", _idkey, True),
+    ("memokey", _memokey, True),
+    ("mutdefault", _mutdefault, True),
     ("mutate", _mutate, False),     # only for modules that are handed a description
 ]
 
@@ -634,7 +908,7 @@ def lints(run, P, prop, extra_files=()):
              "a loop that is only computed in another loop; parallel sequences ordered "
              "alike; no loop variable used in a later loop; no identity comparison of values; data "
              "split by separator; union, not 'or', of variable sets; no word handed to "
-             "strip(); no table across phases keyed by statement id alone; no hash() / id() in text; no one-shot iterator kept as a field; no attribute that the class of a narrowed value lacks; no one mutable object as the value of many keys; no "
+             "strip(); no table across phases keyed by statement id alone; no hash() / id() in text; no remembered value that its key does not determine; no mutable default argument that is changed or handed on; no one-shot iterator kept as a field; no attribute that the class of a narrowed value lacks; no one mutable object as the value of many keys; no "
              "argument passed under another parameter's name; no in-place change of a "
              "description handed in", minimum=3)
     files = sorted(set(anchor_files(prop)) | set(extra_files))
